@@ -49,6 +49,8 @@ struct Found {
     source: String,
     detail: String,
     origin: String,
+    /// (chunk seed, case index) of a generated case: shrunk lazily, only when the signature is actually reported
+    gen: Option<(u64, usize)>,
 }
 
 #[derive(Default)]
@@ -77,9 +79,9 @@ fn run_chunk(idx: usize, n: usize, seed: u64, cfg: &gsyn::GsynConfig, active: &[
     let mut out = ChunkOut::default();
     let strat = gsyn::program_tree(cfg);
     let mut runner = vcore::gen::runner(seed);
-    let mut trees = vcore::gen::batch(&strat, &mut runner, n);
+    let trees = vcore::gen::batch(&strat, &mut runner, n);
     let mut seen_sigs: BTreeSet<String> = BTreeSet::new();
-    for (k, tree) in trees.iter_mut().enumerate() {
+    for (k, tree) in trees.iter().enumerate() {
         let p = gsyn::render(&tree.current());
         out.cases += 1;
         if !p.parsed {
@@ -112,22 +114,11 @@ fn run_chunk(idx: usize, n: usize, seed: u64, cfg: &gsyn::GsynConfig, active: &[
             Verdict::Violation(f) => {
                 out.violations += 1;
                 if seen_sigs.insert(f.sig.clone()) {
-                    let sig = f.sig.clone();
-                    let small = vcore::gen::shrink(tree, 600, |t| {
-                        let q = gsyn::render(t);
-                        q.parsed && matches!(judge(&q.source, active).0, Verdict::Violation(ref g) if g.sig == sig)
-                    });
-                    let q = gsyn::render(&small);
-                    let f2 = match judge(&q.source, active).0 {
-                        Verdict::Violation(g) => g,
-                        _ => f,
-                    };
-                    out.found.push(Found { sig: f2.sig.clone(), detail: describe(&f2, &q.source), source: q.source, origin: format!("gsyn chunk {idx} case {k}") });
+                    out.found.push(Found { sig: f.sig.clone(), detail: describe(&f, &p.source), source: p.source.clone(), origin: format!("gsyn chunk {idx} case {k}"), gen: Some((seed, k)) });
                 }
             }
         }
     }
-    let _ = &mut out.normalisation_mattered;
     out
 }
 
@@ -182,7 +173,7 @@ fn judge_file(name: &str, text: &str, active: &[&'static KnownDef]) -> FileOut {
             }
             Verdict::Violation(f) => {
                 any_part_failed = true;
-                fo.found.push(Found { sig: f.sig.clone(), detail: describe(&f, &part), source: part, origin: format!("declaration of {name}") });
+                fo.found.push(Found { sig: f.sig.clone(), detail: describe(&f, &part), source: part, origin: format!("declaration of {name}"), gen: None });
             }
         }
     }
@@ -194,7 +185,7 @@ fn judge_file(name: &str, text: &str, active: &[&'static KnownDef]) -> FileOut {
             }
             (_, Some(f)) => {
                 if fo.found.is_empty() && (slices_ok || fo.known.is_empty()) {
-                    fo.found.push(Found { sig: f.sig.clone(), detail: describe(&f, text), source: text.to_string(), origin: format!("whole file {name}") });
+                    fo.found.push(Found { sig: f.sig.clone(), detail: describe(&f, text), source: text.to_string(), origin: format!("whole file {name}"), gen: None });
                 }
             }
             _ => {}
@@ -248,10 +239,33 @@ fn doc_blocks() -> Vec<(String, String)> {
     blocks
 }
 
-fn report(out: &mut Outcome, ev: &mut Evidence, f: &Found) {
-    if out.seen(&f.sig) {
+/// Regenerate the chunk deterministically and shrink case `k` while it keeps failing with the same signature.
+fn shrink_generated(seed: u64, k: usize, sig: &str, cfg: &gsyn::GsynConfig, active: &[&'static KnownDef]) -> Option<(String, Failure)> {
+    let strat = gsyn::program_tree(cfg);
+    let mut runner = vcore::gen::runner(seed);
+    let mut trees = vcore::gen::batch(&strat, &mut runner, k + 1);
+    let tree = trees.last_mut()?;
+    let small = vcore::gen::shrink(tree, 800, |t| {
+        let q = gsyn::render(t);
+        q.parsed && matches!(judge(&q.source, active).0, Verdict::Violation(ref g) if g.sig == sig)
+    });
+    let q = gsyn::render(&small);
+    match judge(&q.source, active).0 {
+        Verdict::Violation(g) if g.sig == sig => Some((q.source, g)),
+        _ => None,
+    }
+}
+
+fn report(out: &mut Outcome, ev: &mut Evidence, f: &Found, cfg: &gsyn::GsynConfig, active: &[&'static KnownDef]) {
+    if out.seen(&f.sig) || out.violations.len() >= out.max_reports {
         ev.violations += 1;
         return;
+    }
+    if let Some((seed, k)) = f.gen {
+        if let Some((source, g)) = shrink_generated(seed, k, &f.sig, cfg, active) {
+            out.violation(ev, &f.sig, "incn", &source, &format!("origin: {} (shrunk)\n{}", f.origin, describe(&g, &source)));
+            return;
+        }
     }
     out.violation(ev, &f.sig, "incn", &f.source, &format!("origin: {}\n{}", f.origin, f.detail));
 }
@@ -272,6 +286,7 @@ fn main() {
     ev.assume("f-string format specs are not part of the AST (the parser keeps only the leading expression)");
     ev.assume("module docstrings containing a carriage return are not generated (str::lines() layout is not pinned by the docs)");
     let active = fmtoracle::active(&out.known);
+    let cfg = fmtoracle::gsyn_config(&active);
     let all: BTreeSet<Tag> = gsyn::all_tags().iter().copied().collect();
 
     // ---- replay
@@ -289,14 +304,13 @@ fn main() {
             ev.exclude(k);
         }
         for f in &fo.found {
-            report(&mut out, &mut ev, f);
+            report(&mut out, &mut ev, f, &cfg, &active);
         }
         std::process::exit(out.finish(&ev));
     }
 
     // ---- debugging aid: print generated programs
     if let Some(n) = args.flag("dump").and_then(|s| s.parse::<usize>().ok()) {
-        let cfg = fmtoracle::gsyn_config(&active);
         let strat = gsyn::program(&cfg);
         let mut runner = vcore::gen::runner(args.subseed(8));
         for t in vcore::gen::batch(&strat, &mut runner, n) {
@@ -334,7 +348,6 @@ fn main() {
     }
 
     // ---- 2. generated programs
-    let cfg = fmtoracle::gsyn_config(&active);
     let n_gen = args.flag("gen").and_then(|s| s.parse().ok()).unwrap_or(args.tier.pick(30_000usize, 600_000usize));
     let chunk = 250usize;
     let n_chunks = n_gen.div_ceil(chunk);
@@ -365,8 +378,9 @@ fn main() {
         }
         unknown_tags.extend(r.unknown_tags.iter().copied());
         ev.violations += r.violations.saturating_sub(r.found.len() as u64);
+        let _ = r.normalisation_mattered;
         for f in &r.found {
-            report(&mut out, &mut ev, f);
+            report(&mut out, &mut ev, f, &cfg, &active);
         }
     }
     ev.class_n("gsyn_programs", generated);
@@ -431,7 +445,7 @@ fn main() {
             ev.exclude(k);
         }
         for f in &fo.found {
-            report(&mut out, &mut ev, f);
+            report(&mut out, &mut ev, f, &cfg, &active);
         }
     }
     ev.set("seed_stats", json!(seed_stats));
